@@ -72,6 +72,10 @@ CHUNKS = {
     "overload": "def handler(a):\n    return a\n\n\ndef handler(a, b=7000):\n    return a + b\n",
     "decorated": "import functools\n\n\n@functools.lru_cache(maxsize=None)\ndef cachedValue(a):\n    return a + 7000\n",
     "del_redefine": "tmp = 7000\ndel tmp\ntmp = 7001\n",
+    # inputs on which the late steps of format_code (overused_constant, simplify_assign_immediate_return) still
+    # change the text after the first fix-point loop, so that the second loop runs
+    "assign_return": "def compute(a):\n    result = a + 7000\n    return result\n",
+    "late_const": "def pick(k):\n    if k == 1:\n        return 'a fairly long repeated text'\n    if k == 2:\n        return 'a fairly long repeated text'\n    if k == 3:\n        return 'a fairly long repeated text'\n    if k == 4:\n        return 'a fairly long repeated text'\n    return 'a fairly long repeated text' * k\n",
     "const_repeat": "A1 = 'some repeated text'\nA2 = 'some repeated text'\nA3 = 'some repeated text'\nA4 = 'some repeated text'\nA5 = 'some repeated text'\n",
 }
 
